@@ -147,6 +147,22 @@ func (r *receipt[O, X]) Root() block.Block {
 	return r.rt
 }
 
+func (r *receipt[O, X]) ranLink() ucan.Link {
+	return r.data.Ocm.Ran
+}
+
+// RanLink returns the link of the invocation the receipt was issued for,
+// whether or not that invocation is embedded in the receipt.
+func RanLink[O, X any](r Receipt[O, X]) ucan.Link {
+	if rl, ok := any(r).(interface{ ranLink() ucan.Link }); ok {
+		return rl.ranLink()
+	}
+	if inv := r.Ran(); inv != nil {
+		return inv.Link()
+	}
+	return nil
+}
+
 func (r *receipt[O, X]) Signature() signature.SignatureView {
 	return signature.NewSignatureView(signature.Decode(r.data.Sig))
 }
